@@ -99,7 +99,11 @@ def configs(tier):
     for lc, ls in cheap:
         for script in ("R1s", "R2s", "R3", "R5"):
             c.append((P(lc, ls, script), 2))                              # full menu, deviations anywhere
+        for script in ("R1s", "R2s"):
             c.append((P(lc, ls, script, MENU_CORE), 3))                   # core menu, deviations anywhere
+        deep_all = (lc, ls) in (("ux", "tcp"), ("utls", "ux"))
+        for script in ("R3", "R5"):
+            c.append((P(lc, ls, script, MENU_CORE, dev="all" if deep_all else "relay"), 3))
         for script in ("R1", "R2", "R6"):                                 # 65535-byte messages
             c.append((P(lc, ls, script), 2))
         for script in ("R4", "R6s", "M1", "M3"):
@@ -112,11 +116,13 @@ def configs(tier):
                            ("R1s", 3, "relay"), ("R2s", 3, "relay")):
         c.append((P("tcp", "tls", script, MENU_CORE, dev=dev), d))
     for script, d, dev in (("R1s", 2, "all"), ("R2s", 2, "all"), ("R3", 2, "relay"), ("R5", 2, "relay"), ("M1", 2, "relay"),
-                           ("R1", 1, "all"), ("R2", 1, "all"), ("R4s", 2, "relay"), ("R6s", 2, "relay"), ("M2", 1, "all"),
+                           ("R1", 1, "all"), ("R2", 1, "all"), ("R4s", 2, "relay"), ("R6s", 1, "all"), ("M2", 1, "all"),
                            ("R1s", 3, "relay")):
         c.append((P("tls", "tcp", script, MENU_CORE, dev=dev), d))
-    for script in ("B1", "B2", "B3", "B4"):
+    for script in ("B1", "B2", "B4"):
         c.append((P("btcp", "btcp", script), 3))
+    c.append((P("btcp", "btcp", "B3"), 2))
+    c.append((P("btcp", "btcp", "B3", MENU_CORE, dev="relay"), 3))
     c.append((P("btcp", "btcp", "M1"), 2))
     for script, d, dev in (("B1", 2, "all"), ("B2", 2, "all"), ("B3", 2, "all"), ("B4", 2, "all"), ("M1", 2, "relay"),
                            ("B1", 3, "relay"), ("B2", 3, "relay")):
@@ -129,11 +135,9 @@ def configs(tier):
                            ("btcp", "btls", "B2"), ("tcp", "tcp", "M1"), ("utls", "ux", "R4")):
         c.append((P(lc, ls, script), 1, "asan"))
     # deepest on the cheapest pairs (deviations on the relay's own calls + all preemptions)
-    for lc, ls in (("ux", "tcp"), ("tcp", "ux"), ("tcp", "tcp")):
-        for script in ("R1s", "R2s"):
-            c.append((P(lc, ls, script, MENU_CORE, dev="relay"), 4))
-    for script in ("B1", "B2", "B4"):
-        c.append((P("btcp", "btcp", script, MENU_CORE, dev="relay"), 4))
+    c.append((P("ux", "tcp", "R1s", MENU_CORE, dev="relay"), 4))
+    c.append((P("tcp", "ux", "R2s", MENU_CORE, dev="relay"), 4))
+    c.append((P("btcp", "btcp", "B2", MENU_CORE, dev="relay"), 4))
     return c
 
 
